@@ -182,7 +182,7 @@ Fixpoint leaky_loop (fuel : nat) (l : list Z) : rout :=
         | None => rcons [E_PANIC] (leaky_loop f r)
         | Some t =>
             if dbg && existsb (fun e => (snd e =? 0)%N) t then RAbort
-            else rcons (out_runs (ap_runs (tbl_recs t) None)) (leaky_loop f r)
+            else rcons (Z.of_nat (length t) :: out_runs (ap_runs (tbl_recs t) None)) (leaky_loop f r)
         end
     | 6 :: r =>
         let n := Z.to_nat (hi - lo + 1) in
